@@ -11,7 +11,7 @@ TRUST = ("go/packages + go/types + go/ssa + go/cfg (x/tools v0.29.0); the fpchec
 
 # id -> (technique, level text, design section, not-decided note)
 CHECKS = {
- "C01": ("reference-graph SCC (branch-free cycle) + parameter relevance over the monad packages (AST, go/types)",
+ "C01": ("reference-graph SCC (branch-free cycle) + parameter relevance over the monad packages, operand/argument position rule for MapN definitions (AST, go/types)",
          "Structural necessary conditions, decided for every function of the four generated monad packages: the definitional reference graph has no branch-free cycle (a circular definition diverges on all-success inputs), every parameter of every combinator is used, and StateT bodies never reuse a state that was fed to a run (right identity of StateT); a unit function (Pure/Some/Success/Right/Done) never converts its type-parameter argument to an interface, so it cannot treat nil payloads differently (SSA value flow through moves, closures and static calls); every function of a generated monad file uses the same callees as its namesakes in the other monad packages (the derived combinators are copies of one template; 355 compared); the Applicative/Chain builders consult their operands left to right (effect-order summaries, shared with C02); an iterator's next re-establishes the look-ahead through hasNext unconditionally, not as the right operand of || (R-NEXTGUARD over iterator/fp). A violation names the cycle / the parameter / the conversion / the deviating copy.",
          "§4 C01", "the three laws as value equalities; Seq/List/Iterator/Eval/fn0/fn1 instances"),
  "C02": ("structured success-test analysis (continuation/handler classification by type), supplier-deferral rule, recover-handler rule, loop-exit-on-failure rule for loops applying a Try-valued step function (AST, go/types)",
